@@ -31,6 +31,9 @@ GraftOK(g) ==
     [] g.type = "adagrad" -> GT0(g.eps)
     [] g.type \in {"rmsprop", "adam"} -> GT0(g.eps) /\ In01lo(g.beta2)
 
+\* The boolean flags (use_nesterov, use_bias_correction, use_decoupled_weight_decay) and the container type of the override
+\* (list / tuple / range: any Sequence[int]) carry no documented restriction: they are fields of h that ValueOK does not read,
+\* so every combination of them with values inside the ranges below must construct.
 \* value checks, all of which raise ValueError
 ValueOK(h) ==
   /\ GE0(h.lr)
